@@ -135,6 +135,7 @@ def check_only_removes(inp, out):
 
 
 def run(ctx):
+    import zlib
     from html5lib.filters.optionaltags import Filter
     names = sorted(set(gen.literals_in(SOURCES[0])) - {"StartTag", "EndTag", "EmptyTag", "Comment", "SpaceCharacters",
                                                        "Characters", "type", "name", "data"})
@@ -198,9 +199,52 @@ def run(ctx):
     # ---- filter loop: model vs real, and the removal oracle on the real filter
     n = ctx.scale(3000, 60000)
     reqs, reals, inputs = [], [], []
-    for i in range(n):
-        if i % 3 == 0:
+    def tag(kind, nm):
+        t = {"type": kind, "name": nm, "namespace": None}
+        if kind != "EndTag":
+            t["data"] = {}
+        return t
+    secs = ["tbody", "thead", "tfoot", "colgroup", "tr", "td", "li", "p", "option", "optgroup", "dt", "dd", "html", "head", "body", "table"]
+
+    def window_oracle(toks, out):
+        """the decision for a token depends on its own window (previous, token, next) only — not on what was met earlier in
+        the stream: the filter's output must equal the window-by-window decisions of a FRESH rule object"""
+        g = Filter([])
+        exp = []
+        for j, t in enumerate(toks):
+            pv = toks[j - 1] if j else None
+            nx = toks[j + 1] if j + 1 < len(toks) else None
+            if t["type"] == "StartTag":
+                if t["data"] or not g.is_optional_start(t["name"], pv, nx):
+                    exp.append(t)
+            elif t["type"] == "EndTag":
+                if not g.is_optional_end(t["name"], nx):
+                    exp.append(t)
+            else:
+                exp.append(t)
+        return exp == out
+    # deterministic: the same (token, next) window twice in one stream behind every pair of different predecessors
+    twice = []
+    pv_pool = [p_ for p_ in prevs if p_ is not None]
+    for nm in sorted(START_NAMES) + ["tr", "td", "li", "p"]:
+        for nx in [tag("StartTag", x) for x in ("tr", "col", "td", "li", "p", "tbody", "script", "div")] + [tag("EndTag", nm), {"type": "Characters", "data": "x"}]:
+            for a_ in pv_pool:
+                for b_ in pv_pool:
+                    if a_ is not b_ and (ctx.tier == "thorough" or (zlib.crc32(repr((nm, nx, a_, b_)).encode()) + ctx.seed) % 4 == 0):
+                        twice.append([dict(a_), tag("StartTag", nm), dict(nx), dict(b_), tag("StartTag", nm), dict(nx)])
+                        twice.append([dict(a_), tag("EndTag", nm), dict(nx), dict(b_), tag("EndTag", nm), dict(nx)])
+    for i in range(n + len(twice)):
+        if i >= n:
+            toks = twice[i - n]
+        elif i % 3 == 0:
             toks = gen.balanced_stream(ctx.rng, pool[:len(names)] if ctx.rng.random() < 0.8 else pool, maxdepth=5)
+        elif i % 3 == 1 and i % 2 == 0:
+            # the same segment twice in one stream behind different predecessors (decisions must not be carried over)
+            seg = [tag(ctx.rng.choice(["StartTag", "EndTag", "StartTag"]), ctx.rng.choice(secs)) for _ in range(ctx.rng.randint(2, 4))]
+            pre = [tag(ctx.rng.choice(["StartTag", "EndTag"]), ctx.rng.choice(secs)) for _ in range(2)] + \
+                  [ctx.rng.choice([{"type": "Comment", "data": "c"}, {"type": "SpaceCharacters", "data": " "}, {"type": "Characters", "data": "x"}])]
+            ctx.rng.shuffle(pre)
+            toks = [pre[0]] + seg + [pre[1]] + [dict(t) for t in seg] + [pre[2]] + [dict(t) for t in seg]
         else:
             toks = gen.token_stream(ctx.rng, names if ctx.rng.random() < 0.7 else pool, maxlen=10)
         req = "optfilter " + wire.enc_toks(toks)
@@ -208,6 +252,9 @@ def run(ctx):
             out = real_filter(toks)
             real = "ok " + wire.enc_toks(out)
             bad = check_only_removes(toks, out)
+            if not window_oracle(toks, out):
+                ctx.fail("decision-depends-on-stream-history", "a token's removal is not determined by its own window (previous, token, next)",
+                         {"tokens": repr(toks)[:1500], "output": repr(out)[:1000]})
             if bad is not None:
                 ctx.fail("removed-non-omissible:%s:%s" % (bad.get("type"), bad.get("name")),
                          "filter removed/changed a token that is not an omissible tag", {"tokens": repr(toks), "token": repr(bad)})
